@@ -72,7 +72,7 @@ def concretise(job, unit, res, workdir, log):
             return out
         flags, env = R.solver_flags('cadical', workdir)
         cmd = ['cbmc', gb, '--json-ui', '--trace', '--unwind', str(job.get('cex_unwind', K + 4)), '--no-unwinding-assertions',
-               '--object-bits', '10', '--no-malloc-may-fail'] + job.get('checks', R.DEFAULT_CHECKS) + flags
+               '--object-bits', str(job.get('objbits', 10)), '--no-malloc-may-fail'] + job.get('checks', R.DEFAULT_CHECKS) + flags
         rc, o, e, dt = R.sh(cmd, job.get('cex_timeout', 180), env=env)
         if rc not in (0, 10):
             out['note'] = 'concretisation run failed rc=%s %s' % (rc, (e or o)[-300:])
